@@ -120,6 +120,12 @@ func solveInstance(inst *Instance, cover bool, cfg *SolverCfg, id int) {
 		defer os.Remove(file)
 	}
 	total := 0.0
+	if cover {
+		// vacuity probe: only "unsat" matters (contradictory assumptions); sat/unknown/timeout all pass
+		r := runSolver(context.Background(), solvers[0], file, 2*time.Second)
+		inst.Verdict, inst.Solver, inst.Secs, inst.Output = r.verdict, r.solver, r.secs, firstLine(r.output)
+		return
+	}
 	// stage 1: fast solver alone
 	r := runSolver(context.Background(), solvers[0], file, cfg.Quick)
 	total += r.secs
